@@ -194,21 +194,29 @@ fn enum_feeds() -> Vec<Feed> {
             sched: Schedule::whole(),
             chunk: None,
             ctor: Ctor::FromRead,
+            late_chunk: false,
         },
         Feed {
             sched: Schedule::bytewise(),
             chunk: Some(1),
             ctor: Ctor::FromRead,
+            late_chunk: false,
         },
         Feed {
             sched: Schedule::fixed(3),
             chunk: Some(3),
             ctor: Ctor::Boxed,
+            late_chunk: false,
         },
     ]
 }
 
 fn run(ctx: &Ctx) {
+    if ctx.profile == "unopt" {
+        // the extra shard built without optimisation: long runs only, on a 2 MiB stack
+        ctx.run_cases("sampled-long", ctx.tier.pick(600, 6_000), long_strategy(), check_small_stack);
+        return;
+    }
     // ---- complete small scope ----
     let feeds = enum_feeds();
     let mut evals = 0u64;
@@ -363,21 +371,37 @@ fn run(ctx: &Ctx) {
     ctx.run_cases("sampled", n, strat, check);
 
     // ---- long runs: lines and blank runs of kilobytes (beyond any fixed look-ahead block, beyond
-    // the default chunk), with generated and with default-sized feeds ----
+    // the default chunk), with generated and with default-sized feeds; on a 2 MiB stack ----
+    let n = ctx.share(ctx.tier.pick(24_000, 640_000));
+    ctx.run_cases("sampled-long", n, long_strategy(), check_small_stack);
+}
+
+pub fn check_small_stack(c: &Case, obs: &mut Obs) -> CheckResult {
+    crate::engine::on_small_stack(|| check(c, obs))
+}
+
+fn long_strategy() -> impl Strategy<Value = Case> {
     let seg = (
         0u8..6,
-        prop_oneof![4 => 1usize..=10, 3 => 100usize..=3000, 2 => 3000usize..=20000, 1 => 20000usize..=40000],
+        prop_oneof![
+            8 => 1usize..=10,
+            6 => 100usize..=3000,
+            4 => 3000usize..=20000,
+            2 => 20000usize..=40000,
+            1 => 100_000usize..=400_000
+        ],
     );
-    let strat = (
+    (
         proptest::collection::vec(seg, 1..6),
         feed_strategy(),
         any::<bool>(),
         any::<u16>(),
         any::<u16>(),
+        any::<u16>(),
         prop_oneof![Just(Func::TabsOrSpaces), Just(Func::NextNewline), Just(Func::Newline), Just(Func::Fixed)],
         any::<u16>(),
     )
-        .prop_map(|(segs, mut feed, default_chunk, pre, off, func, plen)| {
+        .prop_map(|(segs, mut feed, default_chunk, pre, adv, off, func, plen)| {
             let mut data = vec![];
             for (kind, len) in segs {
                 match kind {
@@ -389,32 +413,41 @@ fn run(ctx: &Ctx) {
                     _ => data.extend((0..len).map(|i| if i % 2 == 0 { b' ' } else { b'x' })),
                 }
             }
-            if default_chunk {
+            if default_chunk || data.len() > 100_000 {
+                // (a megabyte in one-byte reads is not affordable)
                 feed.chunk = None;
+                if data.len() > 100_000 {
+                    feed.sched = Schedule::whole();
+                }
             }
             let n = data.len();
+            // a long look-ahead first, then (one case in four) most of it is advanced over
             let pre = (pre as usize * (n + 2)) >> 16;
-            let off = if off % 4 == 0 { (off as usize * (n + 2)) >> 16 } else { 0 };
-            let rest: &[u8] = if off <= n { &data[off..] } else { &[] };
+            let adv = if adv % 4 == 0 { ((adv as usize >> 2) * (pre.min(n) + 1)) >> 14 } else { 0 };
+            let rem = n - adv.min(n);
+            let off = if off % 4 == 0 { (off as usize * (rem + 2)) >> 16 } else { 0 };
+            let rest: &[u8] = if adv + off <= n { &data[adv + off..] } else { &[] };
             let k = (plen as usize * (rest.len() + 1)) >> 16;
             let pat = if func == Func::Fixed { rest[..k].to_vec() } else { vec![] };
             Case {
                 data,
                 feed,
                 pre,
-                adv: 0,
+                adv,
                 off,
                 func,
                 pat,
             }
-        });
-    let n = ctx.share(ctx.tier.pick(24_000, 640_000));
-    ctx.run_cases("sampled-long", n, strat, check);
+        })
 }
 
 fn replay(oracle: &str, v: &Value) -> Option<CheckResult> {
     match oracle {
-        "enumerate" | "sampled" | "sampled-long" => Some(match replay_from_file::<Case>(v) {
+        "sampled-long" => Some(match replay_from_file::<Case>(v) {
+            Ok(c) => check_small_stack(&c, &mut Obs::default()),
+            Err(e) => Err(Failure::new("C16:decode", e)),
+        }),
+        "enumerate" | "sampled" => Some(match replay_from_file::<Case>(v) {
             Ok(c) => check(&c, &mut Obs::default()),
             Err(e) => Err(Failure::new("C16:decode", e)),
         }),
